@@ -62,6 +62,7 @@ func runC08(r *engine.Run) {
 	r.Rule("ORDER-commitclear", "in StateCache.commit no versions-map Add is reachable after the store that replaces the block's pending map: the pending writes are dropped only after all of them were published")
 	r.Rule("WHO-globalcache", "package statecache keeps no cache instance (StateCache, BlockCache, TransactionCache, QueryBlockCache) in a package-level variable: caches are per block / per transaction objects")
 	r.Rule("DEP-walk", "see C06: the ancestor walk of StateCache.Get uses only the queried hash and stored links, and memoises exactly the entry it found (all fields, the tombstone flag included) under the queried hash")
+	r.Rule("LOCK-order", "see C16: mutexes that are ever held together are always taken in the same order (BlockCache.mu -> StateCache.lock in a lookup against StateCache.lock -> BlockCache.mu in commit would deadlock a lookup with the commit of its own block)")
 	r.Rule("WHO-layers", "see C07: the key->versions map is installed into only by the commit path and removed from only by Remove - a lock-free lookup that re-registers the map it fetched earlier replaces the map a later commit created, so that block's committed write is lost without any eviction; setValue/commit are reachable only from the commit entry points")
 	r.Rule("KEY-same", "see C06: entries are stored under the key and block hash they belong to, tombstone arms store deleted=true, Set stores a new live entry (a write that inherits a tombstone flag is committed as a removal: after the commit has returned, lookups at the block miss its own write)")
 	r.NotDec = append(r.NotDec, "that every interleaving of the lock-free StateCache.Get with a commit yields the block-tree-determined value (needs exploration of interleavings)")
@@ -70,6 +71,7 @@ func runC08(r *engine.Run) {
 	tableComplete(r, rule, pkgSC, scOwners, scGuards)
 	w := checkGuards(r, rule, entries, scOwners, scGuards)
 	r.Min(rule, 25)
+	lockOrder(r, "LOCK-order", w, 10, "statecache")
 
 	// LOCK-commit
 	commit := r.Fn("LOCK-commit", pkgSC, "StateCache", "commit")
